@@ -62,7 +62,7 @@ func loadRepo(repo, verifDir string, overlay map[string][]byte, extraPatterns ..
 	prog.Build()
 	eng := &Engine{prog: prog, specs: newSpecs(), tags: map[string]int{}, tagTy: map[int]types.Type{}, lits: map[string]string{},
 		embedded: map[string]bool{}, arrayElem: map[string]bool{}, byName: map[string]*ssa.Function{}, globalsWritten: map[string]bool{},
-		fset: prog.Fset, pkgs: map[string]*ssa.Package{}, uncomparable: map[int]bool{}, globalFuncInit: map[string]*ssa.Function{}}
+		fset: prog.Fset, pkgs: map[string]*ssa.Package{}, uncomparable: map[int]bool{}, globalFuncInit: map[string]*ssa.Function{}, elemKeys: map[string]int{}}
 	for _, p := range prog.AllPackages() {
 		eng.pkgs[p.Pkg.Path()] = p
 	}
@@ -89,15 +89,19 @@ func loadRepo(repo, verifDir string, overlay map[string][]byte, extraPatterns ..
 		sc := eng.pkgs[p].Pkg.Scope()
 		for _, n := range sc.Names() {
 			if tn, ok := sc.Lookup(n).(*types.TypeName); ok && !tn.IsAlias() {
-				eng.tag(tn.Type())
+				tg := eng.tag(tn.Type())
 				eng.tag(types.NewPointer(tn.Type()))
+				if _, isStruct := tn.Type().Underlying().(*types.Struct); isStruct {
+					eng.structTags = append(eng.structTags, tg)
+				}
 			}
 		}
 	}
 	for _, n := range []string{"bytes.Buffer", "net/http.Request", "os.File", "sync.Mutex"} {
 		if ty := eng.typeByName(n, nil); ty != nil {
-			eng.tag(ty)
+			tg := eng.tag(ty)
 			eng.tag(types.NewPointer(ty))
+			eng.structTags = append(eng.structTags, tg)
 		}
 	}
 	// syntax index + contract files
@@ -441,4 +445,66 @@ func appendOnlyVarargs(a *ssa.Alloc) bool {
 		}
 	}
 	return true
+}
+
+// checkJSONTags: type-level contract (C14): the structs that make up the attribute database carry their HAP JSON keys
+// (without omitempty, so that ids and types are always emitted). Decided with go/types, no solver.
+func (e *Engine) checkJSONTags() (checked int, violations []string) {
+	want := map[string]map[string]string{
+		"github.com/brutella/hc/accessory.Accessory":           {"ID": "aid", "Services": "services"},
+		"github.com/brutella/hc/accessory.Container":           {"Accessories": "accessories"},
+		"github.com/brutella/hc/service.servicePayload":        {"ID": "iid", "Type": "type", "Characteristics": "characteristics"},
+		"github.com/brutella/hc/characteristic.Characteristic": {"ID": "iid", "Type": "type", "Perms": "perms", "Format": "format"},
+	}
+	var names []string
+	for n := range want {
+		names = append(names, n)
+	}
+	sort.Strings(names)
+	for _, n := range names {
+		ty := e.typeByName(n, nil)
+		if ty == nil {
+			violations = append(violations, "type "+n+" not found")
+			continue
+		}
+		st, ok := ty.Underlying().(*types.Struct)
+		if !ok {
+			violations = append(violations, n+" is not a struct")
+			continue
+		}
+		for field, key := range want[n] {
+			checked++
+			found := false
+			for i := 0; i < st.NumFields(); i++ {
+				if st.Field(i).Name() != field {
+					continue
+				}
+				found = true
+				tag := reflectTagGet(st.Tag(i), "json")
+				if tag != key {
+					violations = append(violations, fmt.Sprintf("%s.%s: json tag %q, want exactly %q (always emitted)", n, field, tag, key))
+				}
+			}
+			if !found {
+				violations = append(violations, fmt.Sprintf("%s has no field %s", n, field))
+			}
+		}
+	}
+	return
+}
+
+func reflectTagGet(tag, key string) string {
+	for tag != "" {
+		i := strings.Index(tag, key+":\"")
+		if i < 0 {
+			return ""
+		}
+		rest := tag[i+len(key)+2:]
+		j := strings.Index(rest, "\"")
+		if j < 0 {
+			return ""
+		}
+		return rest[:j]
+	}
+	return ""
 }
